@@ -208,6 +208,42 @@ def effective_defs(b, fa, l):
     return out
 
 
+def _rtt_filter(cx, inst):
+    R = cx.R
+    ur = R.body("SendRateComp::update_rtt")
+    upd = []
+    for l, s in ur.assigns():
+        if not s["pl"]["p"] and not ur.is_single_def(s["pl"]["l"]) and ur.locals[s["pl"]["l"]]["ty"] == "f64":
+            upd.append((l, acnf(ur.rvalue_expr(s["rv"]))))
+    if not upd:
+        # the same filter as an expression: self.rtt_s.map(|r| 0.9*r + 0.1*sample).unwrap_or(sample)
+        from rules import split_option_map
+        for l, n_, ps in ur.field_writes(r"arg1\.rtt_s"):
+            ve = ur.rvalue_expr(n_["rv"]) if n_["k"] == "assign" else None
+            if ve and ve[0] == "agg" and ve[1] == "Some" and ve[2]:
+                sp = split_option_map(R, ve[2][0])
+                if sp and show(sp[0]) == "arg1.rtt_s":
+                    upd = [(None, acnf(sp[1])), (None, acnf(sp[2]))]
+    forms = sorted(x for _, x in upd)
+    inst.site(ur, None, "update_rtt: " + " | ".join(forms))
+    if forms != ["(1/10*arg2 + 9/10*arg1.rtt_s@Some.0)", "arg2"]:
+        inst.violation(ur.path, "rtt filter", "RTT estimate is updated as %s; expected 0.9*R + 0.1*sample (first sample taken as is)" % forms)
+    else:
+        for l, x in upd:
+            if l is None:
+                continue  # expression form: the arms are the closure (Some) and the default (None) by construction
+            need = r"is\(arg1\.rtt_s,Some\)" if "9/10" in x else r"is\(arg1\.rtt_s,None\)"
+            good, _ = dnf_holds(cx.fa(ur).at(l), [[need]])
+            if not good:
+                inst.violation(ur.path, "rtt filter arm", "the first-sample / filtered arms of update_rtt are swapped", at=ur.span_at(l))
+
+
+def rtt_filter_shape(cx, iid):
+    """T7 SHAPE: the RTT estimate is the 0.9 / 0.1 moving average of the samples, the first sample taken as it is."""
+    with cx.instance(iid, "T7 SHAPE (AC-normal form)", "update_rtt: R = 0.9*R + 0.1*sample, first sample as is", floor=1) as inst:
+        _rtt_filter(cx, inst)
+
+
 def store_cases(b, fa, loc, node):
     """a store `field = v` where v is a local assigned in several arms (`let x = match .. {..}; self.f = x`) is read as
     one store per definition of v, each with the facts holding where that value was chosen"""
@@ -422,32 +458,7 @@ def run(cx):
             inst.site(b, None, "%s = %s" % (fn.split("::")[-1], got))
             if got != w:
                 inst.violation(b.path, "formula", "%s computes `%s`; RFC 5348 transcription expected `%s`" % (fn.split("::")[-1], got, w))
-        ur = R.body("SendRateComp::update_rtt")
-        upd = []
-        for l, s in ur.assigns():
-            if not s["pl"]["p"] and not ur.is_single_def(s["pl"]["l"]) and ur.locals[s["pl"]["l"]]["ty"] == "f64":
-                upd.append((l, acnf(ur.rvalue_expr(s["rv"]))))
-        if not upd:
-            # the same filter as an expression: self.rtt_s.map(|r| 0.9*r + 0.1*sample).unwrap_or(sample)
-            from rules import split_option_map
-            for l, n_, ps in ur.field_writes(r"arg1\.rtt_s"):
-                ve = ur.rvalue_expr(n_["rv"]) if n_["k"] == "assign" else None
-                if ve and ve[0] == "agg" and ve[1] == "Some" and ve[2]:
-                    sp = split_option_map(R, ve[2][0])
-                    if sp and show(sp[0]) == "arg1.rtt_s":
-                        upd = [(None, acnf(sp[1])), (None, acnf(sp[2]))]
-        forms = sorted(x for _, x in upd)
-        inst.site(ur, None, "update_rtt: " + " | ".join(forms))
-        if forms != ["(1/10*arg2 + 9/10*arg1.rtt_s@Some.0)", "arg2"]:
-            inst.violation(ur.path, "rtt filter", "RTT estimate is updated as %s; expected 0.9*R + 0.1*sample (first sample taken as is)" % forms)
-        else:
-            for l, x in upd:
-                if l is None:
-                    continue  # expression form: the arms are the closure (Some) and the default (None) by construction
-                need = r"is\(arg1\.rtt_s,Some\)" if "9/10" in x else r"is\(arg1\.rtt_s,None\)"
-                good, _ = dnf_holds(cx.fa(ur).at(l), [[need]])
-                if not good:
-                    inst.violation(ur.path, "rtt filter arm", "the first-sample / filtered arms of update_rtt are swapped", at=ur.span_at(l))
+        _rtt_filter(cx, inst)
         uo = R.body("SendRateComp::update_rto")
         got = [acnf(uo.call_expr(t)) for l, t in uo.calls("f64::max")]
         inst.site(uo, None, "update_rto: " + " | ".join(got))
